@@ -24,6 +24,17 @@ def builds_needed(tier):
     return ["rel"]
 
 
+# Own corpus re-run on other builds of the crate (mc/core.py: extra builds). Every observation is compared with the same model.
+def _vec(fname, i):
+    # the vector paths are block functions: the graph shards (every partition of 4B+1 bytes) and the counter shard exercise them fully
+    return fname == "shard_counter_reuse" or (fname in ("shard_graph", "shard_big") and specs()[i][0].startswith(("sha224", "sha256", "blake2")))
+
+
+def extra_builds(tier):
+    return [("relchk", None), ("sse41", _vec), ("avx", _vec), ("avx2", _vec)]
+
+
+
 def bounds(tier):
     return {"tree_depth": 4 if tier == "thorough" else 3, "graph_bytes": "4B+1", "live_contexts": 2,
             "graph_resets": 2 if tier == "thorough" else 1}
@@ -169,6 +180,25 @@ class HashSystem:
         return tuple(None if c is None else (c[0], c[1], len(c[2])) for c in m)
 
 
+class BigChunkSystem(HashSystem):
+    """multi-block single calls: 5..20 whole blocks (with 0 / +-1 / odd tails) per update, after a short prefix or not, so that
+    every batch size of a multi-block compression loop and every tail size is driven with every buffer fill; letters u/m over the big
+    alphabet plus 1 and B-1, finalize_reset to chain a second message onto the same context"""
+
+    def __init__(self, spec, tier):
+        HashSystem.__init__(self, spec, tier, graph=False)
+        B = self.B
+        self.L = [1, B - 1, 5 * B, 6 * B + 1, 7 * B - 1, 9 * B, 10 * B + 3, 11 * B, 13 * B + B // 2, 14 * B, 15 * B - 1, 17 * B, 19 * B + 1, 20 * B]
+
+    def letters(self, m, depth):
+        out = []
+        for l in self.L:
+            out.append(("u", 0, l))
+            out.append(("m", 0, l))
+        out.append(("fr", 0))
+        return out
+
+
 def _nontrivial(ops, meta):
     for o in ops:
         if o.startswith("update") and not o.endswith(":0"):
@@ -178,7 +208,27 @@ def _nontrivial(ops, meta):
 
 def shards(tier):
     sp = specs()
-    return [("shard_tree", i) for i in range(len(sp))] + [("shard_graph", i) for i in range(len(sp))]
+    return [("shard_tree", i) for i in range(len(sp))] + [("shard_graph", i) for i in range(len(sp))] + [("shard_counter_reuse", None)] + [("shard_big", i) for i in range(len(sp))]
+
+
+def shard_big(i, tier):
+    spec = specs()[i]
+    ck = core.Checker(PROPERTY_ID)
+    real = ck.run
+    ck.run = lambda cases, nontrivial=True, count_trace=True: real(cases, nontrivial=_nontrivial, count_trace=count_trace)
+    explorer.explore(BigChunkSystem(spec, tier), ck, "tree", 3 if tier == "thorough" else 2)
+    return ck.stats
+
+
+def shard_counter_reuse(_, tier):
+    """reuse after reset / finalize_reset / reset_with_key of BLAKE2 contexts whose byte counter words were preset (hook) next to and
+    beyond their word boundaries: the state left by 4 GiB+ of input must not survive a reset"""
+    from props import c20
+    ck = core.Checker(PROPERTY_ID)
+    cs = c20.blake2_counter_cases()
+    ck.run(cs)
+    ck.stats.states += len(cs)
+    return ck.stats
 
 
 def shard_tree(i, tier):
